@@ -587,9 +587,11 @@ def _run(chk: Check, tier: str, P: dict, rnd, work, pool, t_start):
     # ---- 6. TLC verification results
     # mutants of the model (the three repaired behaviours) must be refuted by the strict invariants;
     # strictlabel exhibit the residual (not forced) behaviour and the unlabelled case
+    mutant_traces = ""
     for n, f in find_f.items():
         r = f.result()
         chk.add_tlc(r)
+        mutant_traces += r.stdout
         if r.violated is None:
             raise MachineryError(f"TLC found no counterexample for MC_Verdict_{n}.cfg: "
                                  + ("negative control accepted: the invariant does not refute the mutant" if n.startswith("m_") else "the model no longer shows this behaviour"))
@@ -609,10 +611,21 @@ def _run(chk: Check, tier: str, P: dict, rnd, work, pool, t_start):
     if never:
         chk.cov["actions_never_taken_per_config"] = never  # restricted configurations (e.g. no --early-exit, not refinable)
     if tier == "thorough":
-        dead = sorted(a for a, t in taken.items() if t == 0)
+        import re
+
         chk.cov["action_transition_counts"] = taken
-        if dead or len(taken) < 18:
-            raise MachineryError(f"actions of Verdict.tla never taken in any configuration (or coverage not parsed): {dead} / {sorted(taken)}")
+        if len(taken) < 18:
+            raise MachineryError(f"TLC coverage not parsed: only the actions {sorted(taken)} were found")
+        dead = sorted(a for a, t in taken.items() if t == 0)
+        # `Raised` (run_tests' `except Exception` after an exception out of run_test) is unreachable on the faithful model
+        # since a19e257 / e7511fd (and a spawn failure of a confirmation query is never scripted): it must be taken in
+        # the counterexamples of the mutant configurations
+        only_mutants = sorted(a for a in dead if re.search(rf"<{a} line \d+", mutant_traces))
+        if only_mutants:
+            chk.cov["actions_taken_only_in_mutant_configs"] = only_mutants
+        dead = [a for a in dead if a not in only_mutants]
+        if dead:
+            raise MachineryError(f"actions of Verdict.tla never taken in any configuration, faithful or mutant: {dead}")
     phases["verification"] = round(time.time() - t_start, 1)
     chk.cov["exhaustive"] = True
     chk.cov["rule"] = ("Verdict.tla: every assignment of outcomes x solver replies x flags, every interleaving (TLC); "
